@@ -168,10 +168,12 @@ def _as_array_or_scalar(exprs: Sequence[ScalarExpression],
         if isinstance(expr, SCALAR_CLASSES):
             result.append(expr)
         elif (isinstance(expr, p.Variable)
+              and expr.name in bindings
               and bindings[expr.name].shape == ()):
             result.append(bindings[expr.name])
         elif (isinstance(expr, p.Subscript)
               and isinstance(expr.aggregate, p.Variable)
+              and expr.aggregate.name in binding_to_subscript
               and (binding_to_subscript[expr.aggregate.name]
                    == expr)):
             result.append(bindings[expr.aggregate.name])
